@@ -164,13 +164,21 @@ func runC08(c *kit.Ctx) {
 					if ia, ok := l.X.(*ssa.IndexAddr); ok {
 						if s, isR := rangeOfIndex(ia.Index); isR {
 							if ld, ok := kit.Strip(s).(*ssa.UnOp); ok && ovFV != nil && ld.X == ssa.Value(ovFV) {
-								// true edge returns (nil,false)
-								for _, x := range kit.SuccOnTrue(iff).Instrs {
-									if r, ok := x.(*ssa.Return); ok {
-										if k, ok := kit.Res(r, 1).(*ssa.Const); ok && k.Value != nil && k.Value.ExactString() == "false" {
-											okYoung = true
-										}
+								// every way on from the true edge returns (.., false) (directly, or through a
+								// flag a helper set: branches on it are decided by the value that arrives)
+								reached := false
+								bad := kit.PathFromBlock(kit.SuccOnTrue(iff), kit.PathQuery{TargetPath: func(x ssa.Instruction, path []*ssa.BasicBlock) bool {
+									r, ok := x.(*ssa.Return)
+									if !ok {
+										return false
 									}
+									reached = true
+									full := append([]*ssa.BasicBlock{iff.Block()}, path...)
+									k, ok := kit.ResolveAlong(kit.Res(r, 1), full).(*ssa.Const)
+									return !ok || k.Value == nil || k.Value.ExactString() != "false"
+								}})
+								if reached && bad == nil {
+									okYoung = true
 								}
 							}
 						}
